@@ -48,6 +48,7 @@ entry!(ESchmitt, sf::classify::schmitt::Schmitt<Rat, Rat>, |f, i| vec![f.filter(
 entry!(EDeb, sf::classify::debounce::Debounce<Rat, Rat>, |f, i| vec![f.filter(i[0])], |g| { let c = g.config_ref(); vec![u(c.threshold), c.predicate, c.outputs[0], c.outputs[1]] });
 entry!(ESlopes, sf::classify::slopes::Slopes<Rat, usize>, |f, i| vec![u(f.filter(i[0]))], |g| g.config_ref().outputs.iter().map(|x| u(*x)).collect());
 entry!(EPeaks, sf::classify::peaks::Peaks<Rat, usize>, |f, i| vec![u(f.filter(i[0]))], |g| g.config_ref().outputs.iter().map(|x| u(*x)).collect());
+entry!(EPeaksSl, sf::classify::peaks::Peaks<sf::classify::slopes::Slope, usize>, |f, i| { use sf::classify::slopes::Slope; let sl = match i[0].n { 0 => Slope::Rising, 2 => Slope::Falling, _ => Slope::None }; vec![u(f.filter(sl))] }, |g| g.config_ref().outputs.iter().map(|x| u(*x)).collect());
 entry!(EConv3, sf::convolve::Convolve<Rat, 3>, |f, i| vec![f.filter(i[0])], |g| g.config_ref().coefficients.to_vec());
 entry!(EDelay2, sf::delay::Delay<Rat, 2>, |f, i| vec![f.filter(i[0])], |_g| vec![]);
 entry!(EDiff, sf::differentiate::Differentiate<Rat>, |f, i| vec![f.filter(i[0])], |_g| vec![]);
@@ -103,6 +104,7 @@ pub fn build(name: &str, c: &[Rat]) -> Option<(usize, Vec<Rat>, Box<dyn DynFilt>
         "cache_integrate" => (23, vec![], Box::new(ECacheInt(Default::default()))),
         "cache_median3" => (24, vec![u(3)], Box::new(ECacheMed(Default::default()))),
         "unit_integrate" => (25, vec![], Box::new(EUnitInt(Default::default()))),
+        "peaks_slopes" => (27, vec![], Box::new(EPeaksSl(sf::classify::peaks::Peaks::with_config(sf::classify::peaks::Config { outputs: [0, 1, 2] })))),
         _ => return None,
     })
 }
@@ -118,7 +120,7 @@ pub fn catalogue() -> Vec<(&'static str, Vec<Vec<Rat>>, usize)> {
          ("convolve3", vec![vec![q(1, 2), q(-1, 1), q(2, 1)]], 1), ("delay2", vec![vec![]], 1), ("differentiate", vec![vec![]], 1), ("integrate", vec![vec![]], 1),
          ("hampel3", vec![vec![q(2, 1)], vec![q(1, 2)]], 1), ("alpha_beta", vec![vec![q(1, 2), q(1, 4)]], 1), ("kalman", vec![vec![q(1, 1), q(1, 1), q(1, 1), q(0, 1), q(1, 1)], vec![q(1, 2), q(2, 1), q(1, 2), q(1, 1), q(2, 1)]], 1),
          ("analyze2", vec![vec![q(1, 2), q(1, 2), q(1, 2), q(-1, 2)]], 1), ("synthesize2", vec![vec![q(1, 2), q(1, 2), q(-1, 2), q(1, 2)]], 2),
-         ("cache_integrate", vec![vec![]], 1), ("cache_median3", vec![vec![]], 1), ("unit_integrate", vec![vec![]], 1)]
+         ("cache_integrate", vec![vec![]], 1), ("cache_median3", vec![vec![]], 1), ("unit_integrate", vec![vec![]], 1), ("peaks_slopes", vec![vec![]], 1)]
 }
 
 fn enc_in(xs: &[Rat], arity: usize) -> Vec<Vec<Rat>> { xs.chunks(arity).filter(|c| c.len() == arity).map(|c| c.to_vec()).collect() }
@@ -191,16 +193,78 @@ fn unit_wrappers(kind: &str, xs: &[Rat]) -> Outcome {
 trait AndRef { fn and_ref(self, out: &[Vec<Rat>], reference: &[Vec<Rat>]) -> Outcome; }
 impl AndRef for Outcome { fn and_ref(self, out: &[Vec<Rat>], reference: &[Vec<Rat>]) -> Outcome { if out == reference { self } else { match self { Outcome::Case(t) => Outcome::Case(t.replace(" None false", " None true")), o => o } } } }
 
+// float exactness of copies: original and copy fed the SAME continuation must answer bit-identically
+fn float_copy(name: &str, mode: &str, hist: &[f64], cont: &[f64]) -> Outcome {
+    use crate::props::conv::f64_exact;
+    fn drive<F: Filter<f32, Output = f32> + Clone + FromGuts + IntoGuts>(mut f: F, mode: &str, hist: &[f64], cont: &[f64]) -> (Vec<f64>, Vec<f64>) {
+        for x in hist { f.filter(*x as f32); }
+        let mut c = if mode == "clone" { f.clone() } else { F::from_guts(f.clone().into_guts()) };
+        (cont.iter().map(|x| f.filter(*x as f32) as f64).collect(), cont.iter().map(|x| c.filter(*x as f32) as f64).collect())
+    }
+    fn drive64<F: Filter<f64, Output = f64> + Clone + FromGuts + IntoGuts>(mut f: F, mode: &str, hist: &[f64], cont: &[f64]) -> (Vec<f64>, Vec<f64>) {
+        for x in hist { f.filter(*x); }
+        let mut c = if mode == "clone" { f.clone() } else { F::from_guts(f.clone().into_guts()) };
+        (cont.iter().map(|x| f.filter(*x)).collect(), cont.iter().map(|x| c.filter(*x)).collect())
+    }
+    let r = catch(|| match name {
+        "mean3_f32" => drive(sf::mean::mean::Mean::<f32, 3>::default(), mode, hist, cont),
+        "mean5_f32" => drive(sf::mean::mean::Mean::<f32, 5>::default(), mode, hist, cont),
+        "mean4_f64" => drive64(sf::mean::mean::Mean::<f64, 4>::default(), mode, hist, cont),
+        "conv3_f32" => drive(sf::convolve::Convolve::<f32, 3>::with_config(sf::convolve::Config { coefficients: [0.3, 0.5, 0.2] }), mode, hist, cont),
+        "expmean_f32" => drive(sf::mean::exp::mean::Mean::<f32>::with_config(sf::mean::exp::mean::Config { inverse_width: 0.3 }), mode, hist, cont),
+        "integrate_f32" => drive(sf::integrate::Integrate::<f32>::default(), mode, hist, cont),
+        "kalman_f64" => drive64(sf::observe::kalman::Kalman::<f64>::with_config(sf::observe::kalman::Config { r: 0.5, q: 2.0, a: 1.0, b: 0.0, c: 1.0 }), mode, hist, cont),
+        _ => drive64(sf::mean::mean_variance::MeanVariance::<f64, 3>::default().map_mean(), mode, hist, cont),
+    });
+    let enc = |v: &[f64]| v.iter().map(|x| vec![f64_exact(*x).unwrap_or(Rat::int(i64::MAX / 8))]).collect::<Vec<_>>();
+    let ins: Vec<Vec<Rat>> = cont.iter().map(|_| vec![Rat::int(0)]).collect();
+    match r { Ok((a, b)) => Outcome::Case(format!("mk 100%nat [] [] {} {} [] {} {} [] [] None false", cll(&ins), cll(&ins), cll(&enc(&a)), cll(&enc(&b)))),
+              Err(_) => Outcome::Case(format!("mk 100%nat [] [] {} {} [] [] [] [] [] None true", cll(&ins), cll(&ins))) }
+}
+trait MapMean { type Out; fn map_mean(self) -> Self::Out; }
+#[derive(Clone)] struct MvMean(sf::mean::mean_variance::MeanVariance<f64, 3>);
+impl MapMean for sf::mean::mean_variance::MeanVariance<f64, 3> { type Out = MvMean; fn map_mean(self) -> MvMean { MvMean(self) } }
+impl Filter<f64> for MvMean { type Output = f64; fn filter(&mut self, x: f64) -> f64 { let o = self.0.filter(x); o.mean + o.variance } }
+impl signalo_traits::Guts for MvMean { type Guts = <sf::mean::mean_variance::MeanVariance<f64, 3> as signalo_traits::Guts>::Guts; }
+impl FromGuts for MvMean { fn from_guts(g: Self::Guts) -> Self { MvMean(FromGuts::from_guts(g)) } }
+impl IntoGuts for MvMean { fn into_guts(self) -> Self::Guts { self.0.into_guts() } }
+// source Cache: cached() after every pull, also past the end
+fn cache_source(items: &[Rat], ops: &[Rat]) -> Outcome {
+    use signalo_traits::Source;
+    let vals: Vec<i64> = items.iter().map(|r| r.n as i64).collect();
+    let r = catch(|| { let mut c = signalo_sources::cache::Cache::<_, i64>::from(signalo_sources::from_iter::FromIter::from(vals.clone()));
+        ops.iter().map(|o| if o.n == 0 { c.source().map(|v| vec![Rat::int(v)]).unwrap_or_default() } else { c.cached().map(|v| vec![Rat::int(*v)]).unwrap_or_default() }).collect::<Vec<_>>() });
+    let prog: Vec<Vec<Rat>> = ops.iter().map(|o| vec![*o]).collect();
+    match r { Ok(obs) => Outcome::Case(format!("mk 101%nat {} {} [] [] {} [] [] [] [] None false", cqlist(items), cll(&prog), cll(&obs))),
+              Err(_) => Outcome::Case(format!("mk 101%nat {} {} [] [] [] [] [] [] [] None true", cqlist(items), cll(&prog))) }
+}
+
 // ------------------------------------------------------------------ C20
 pub fn gen20(tier: &str, rng: &mut Rng) -> Vec<Spec> {
     let t = tier == "thorough"; let mut v = vec![];
     for kind in ["unit_source", "unit_sink"] { for (h, _) in hists(rng, t, 1) { v.push(Spec::new(kind).with("xs", join_rats(&h))); } }
+    // float copies: histories that make incremental state drift (a huge sample that has left the window, long fractional runs)
+    for name in ["mean3_f32", "mean5_f32", "mean4_f64", "conv3_f32", "expmean_f32", "integrate_f32", "kalman_f64", "meanvar3_f64"] { for mode in ["clone", "guts"] {
+        for k in 0..(if t { 40 } else { 8 }) {
+            let len = if k % 2 == 0 { rng.range(4, 12) } else { rng.range(60, 300) } as usize;
+            let mut h: Vec<String> = (0..len).map(|_| format!("{}", rng.range(-2000, 2000))).collect();
+            if k % 2 == 0 { h[0] = "100000000".to_string(); }
+            let cont: Vec<String> = (0..6).map(|_| format!("{}", rng.range(-2000, 2000))).collect();
+            v.push(Spec::new("copyf").with("entry", name).with("mode", mode).with("scale", if k % 4 < 2 { 1 } else { 1000 }).with("xs", h.join(",")).with("ys", cont.join(",")));
+        } } }
+    // source Cache over a finite source: every program of pulls (0) and cached() reads (1) up to length 6 (7)
+    for items in [vec![], vec![3i64], vec![3, 1, 4]] { for l in 1..=(if t { 7 } else { 6 }) { for ops in super::all_seqs(&[0i64, 1], l) {
+        v.push(Spec::new("cache_source").with("xs", join(&items)).with("ops", join(&ops))); } } }
     for (name, cfgs, arity) in catalogue() { for cfg in &cfgs { for (i, (h, a)) in hists(rng, t, arity).into_iter().enumerate() {
         let b: Vec<Rat> = a.iter().rev().map(|x| *x + Rat::int(1)).collect();
         v.push(Spec::new("copy").with("entry", name).with("cfg", join_rats(cfg)).with("mode", if i % 2 == 0 { "clone" } else { "guts" }).with("xs", join_rats(&h)).with("ys", join_rats(&a)).with("zs", join_rats(&b))); } } }
     v
 }
 pub fn exec20(s: &Spec, stats: &mut Stats) -> Outcome {
+    if s.kind == "copyf" { stats.bump(format!("entry:float-{}", s.get("entry"))); let sc = s.i64("scale") as f64;
+        let h: Vec<f64> = s.i64s("xs").iter().map(|x| *x as f64 / sc).collect(); let c: Vec<f64> = s.i64s("ys").iter().map(|x| *x as f64 / sc).collect();
+        return float_copy(s.get("entry"), s.get("mode"), &h, &c); }
+    if s.kind == "cache_source" { stats.bump("entry:source-cache"); return cache_source(&s.rats("xs"), &s.rats("ops")); }
     if s.kind != "copy" { stats.bump(format!("entry:{}", s.kind)); return unit_wrappers(&s.kind, &s.rats("xs")); }
     let name = s.get("entry"); let cfg = s.rats("cfg"); let mode = s.get("mode");
     let arity = catalogue().iter().find(|e| e.0 == name).map(|e| e.2).unwrap_or(1);
